@@ -274,10 +274,24 @@ def oracle_hist(case, obs):
     return [{'sig': 'C05|history|vs-single-period-calls', 'what': what}]
 
 
+KNOWN_INTERVAL_SIG = 'C05|IntervalIndex|label-position-is-numpy-int64'
+
+
+def interval_label_class(case, obs):
+    """exactly the class of the kept finding: a pandas IntervalIndex span, a label of the span GIVEN by the caller (start / end /
+    solve_period argument), and the call rejected it with KeyError"""
+    given = [s for s in (case.get('start'), case.get('end')) if s is not None and s[0] == 'pos']
+    return case.get('span_type') == 'pd_interval' and bool(given) and obs['out'][:2] == ['raise', 'KeyError']
+
+
 def oracle(case, obs):
     if case.get('kind') == 'hist':
         return oracle_hist(case, obs)
-    return _oracle(case, obs)
+    fails = _oracle(case, obs)
+    if fails and interval_label_class(view(case, obs), obs):
+        return [{'sig': KNOWN_INTERVAL_SIG, 'what': 'pandas IntervalIndex span: get_loc answers a label with numpy.int64, which is no built-in int, so '
+                 'the label is rejected with KeyError; ' + fails[0]['what']}]
+    return fails
 
 
 def _oracle(case, obs):
